@@ -204,11 +204,12 @@ def events_rules(ctx, engine, f, ip):
                                   f"string concatenation with the payload of a program value of unrefined kind "
                                   f"({sorted(b.types)[:6]}): TypeError for non-strings")
                         break
-            if op in ("LShift", "RShift") and known(r) and r.types <= {"int", "bool"}:
-                guarded = _in_try_converting(f, ev.node, ("ValueError",)) or _nonneg_guard(f, ev.node)
-                if not (isinstance(ev.node.right, ast.Constant) or isinstance(ev.node.right, ast.BinOp)):
-                    ctx.check("C13.conv", f, ev.node, guarded,
-                              "shift by a program-supplied count that may be negative: ValueError")
+            if op in ("LShift", "RShift") and not isinstance(ev.node.right, ast.Constant) \
+                    and (not known(r) or r.types <= {"int", "bool"}):
+                guarded = _in_try_converting(f, ev.node, ("ValueError",)) or _shift_nonneg(f, ev.node)
+                ctx.check("C13.conv", f, ev.node, guarded,
+                          f"shift by `{norm(ev.node.right)}`, which is not proven non-negative: ValueError "
+                          f"(negative shift count)")
         elif ev.kind == "method":
             recv, mname, args = ev.data
             if known(recv) and recv.types <= {"str"} and mname in ("find", "rfind", "startswith", "endswith", "count",
@@ -271,10 +272,27 @@ def _len_guard(f, node):
     return False
 
 
+def _shift_nonneg(f, node):
+    """Interval analysis: the shift count's lower bound is >= 0 at the shift."""
+    from ..intervals import Bounds, le
+    b = Bounds(f.node)
+    for n in b.g.nodes:
+        if n.ast is not None and n.kind != "for" and any(x is node for x in ast.walk(n.ast)):
+            lo, hi = b.ev(node.right, b.at(n))
+            return lo is not None and le(("c", 0), lo) is True
+    return False
+
+
 def _nonneg_guard(f, node):
     g = CFG(f.node, implicit_exc=False)
     facts = must_facts(g)
     right = norm(node.right)
+    # the count was reduced modulo a positive constant after the last other assignment
+    defs = [n for n in ast.walk(f.node) if isinstance(n, ast.Assign) and norm(n.targets[0]) == right]
+    if defs and isinstance(defs[-1].value, ast.BinOp) and isinstance(defs[-1].value.op, ast.Mod) \
+            and isinstance(defs[-1].value.right, ast.Constant) and isinstance(defs[-1].value.right.value, int) \
+            and defs[-1].value.right.value > 0 and defs[-1].lineno < node.lineno:
+        return True
     for n in g.nodes:
         if n.ast is not None and n.kind != "for" and any(x is node for x in ast.walk(n.ast)):
             have = facts.get(n.id, frozenset())
@@ -455,6 +473,16 @@ def zero_and_index(ctx, engine, f, ip):
                 try:
                     v = int(t.split()[-1])
                     ok = ok or (v + (1 if ">=" not in t else 0)) >= need
+                except ValueError:
+                    pass
+            if not p and t.startswith(f"len({base}) != "):
+                try:
+                    ok = ok or int(t.split("!= ")[1]) >= need
+                except ValueError:
+                    pass
+            if not p and t.startswith(f"len({base}) < "):
+                try:
+                    ok = ok or int(t.split("< ")[1]) >= need
                 except ValueError:
                     pass
             if not p and t in (f"{base} == ''", f'{base} == ""', f"len({base}) == 0", f"not {base}"):
